@@ -357,38 +357,36 @@ Record PH (sy : sys) (n : nat) : Prop := mkPH {
          tracked t (get_ev sy e) /\ estarted (get_ev sy e) = true /\ e < length (sevs sy);
   ph_deps : deps_done false g (wst (sw sy)) t }.
 
+Lemma acct_tchg a b em n : tchg true a b em -> acct a n -> acct b (n + if em then 1 else 0).
+Proof.
+  intros A Ac. destruct Ac as [|Lt|Ge|s Hs Lt]; inversion A; subst; simpl;
+    try discriminate;
+    try (exfalso; destruct Hs; discriminate).
+  - apply ac_lost.
+  - apply (ac_resub TWaiting); [left; reflexivity | assumption].
+  - apply ac_err. assumption.
+  - apply ac_counted. assumption.
+  - apply (ac_resub TWaiting); [left; reflexivity | assumption].
+  - apply ac_err. assumption.
+  - apply ac_resub; assumption.
+Qed.
+
 Lemma acct_wstep w w' rs n :
   wstep true w w' rs -> acct (tv w t) n -> acct (tv w' t) (n + if mem t rs then 1 else 0).
-Proof.
-  intros [_ A] Ac. specialize (A t). inversion Ac; subst.
-  - rewrite <- H0 in A. inversion A; subst.
-    + rewrite <- H3, Nat.add_0_r. rewrite H0. exact Ac.
-    + rewrite <- H3. apply (ac_resub TWaiting); [left; reflexivity | assumption].
-    + rewrite <- H3. apply ac_err. assumption.
-  - rewrite <- H0 in A. inversion A; subst.
-    + rewrite <- H4, Nat.add_0_r. rewrite H0. exact Ac.
-    + rewrite <- H4. apply (ac_resub TWaiting); [left; reflexivity | assumption].
-  - rewrite <- H0 in A. inversion A; subst. rewrite <- H4, Nat.add_0_r. rewrite H0. exact Ac.
-  - rewrite <- H0 in A.
-    assert (X : tv w' t = (s, (c0 + 1)%Z, true) /\ mem t rs = false).
-    { destruct H1 as [Hs|Hs]; subst s; inversion A; subst; split; congruence. }
-    destruct X as [X1 X2]. rewrite X1, X2, Nat.add_0_r. apply ac_resub; assumption.
-Qed.
+Proof. intros [_ A] Ac. apply (acct_tchg _ _ _ _ (A t) Ac). Qed.
 
 Lemma acct_wchg w w' n :
   wchg (tv w t) (tv w' t) -> acct (tv w t) n -> acct (tv w' t) n.
 Proof.
-  intros A Ac. inversion Ac; subst.
-  - rewrite <- H0 in A. inversion A; subst.
-    + rewrite <- H3, H0. exact Ac.
-    + rewrite <- H3. apply ac_counted. assumption.
-    + rewrite <- H3. apply ac_err. assumption.
-  - rewrite <- H0 in A. inversion A; subst. rewrite <- H4, H0. exact Ac.
-  - rewrite <- H0 in A. inversion A; subst. rewrite <- H4, H0. exact Ac.
-  - rewrite <- H0 in A.
-    assert (X : tv w' t = (s, (c0 + 1)%Z, true)).
-    { destruct H1 as [Hs|Hs]; subst s; inversion A; subst; congruence. }
-    rewrite X. apply ac_resub; assumption.
+  intros A Ac. destruct (tv w t) as [[s c] l]. destruct (tv w' t) as [[s' c'] l'].
+  destruct Ac as [|Lt|Ge|s0 Hs Lt]; inversion A; subst;
+    try discriminate; try (exfalso; destruct Hs; discriminate).
+  - apply ac_lost.
+  - apply ac_counted. assumption.
+  - apply ac_err. assumption.
+  - apply ac_counted. assumption.
+  - apply ac_err. assumption.
+  - apply ac_resub; assumption.
 Qed.
 
 Lemma wchg_ok w w' u : wchg (tv w u) (tv w' u) -> (wst w u = TOk <-> wst w' u = TOk).
